@@ -340,6 +340,11 @@ func (so *stateObject) deepCopy(db *StateDB) *stateObject {
 	stateObject.suicided = so.suicided
 	stateObject.dirtyCode = so.dirtyCode
 	stateObject.deleted = so.deleted
+	// the delegations list is replaced, never modified in place (see UpdateDelegationTo), so it can be shared;
+	// without it (and its dirty flag) the copy cannot read a list that is not in the database yet,
+	// and committing the copy would never write it.
+	stateObject.delegations = so.delegations
+	stateObject.dirtyDlgs = so.dirtyDlgs
 	return stateObject
 }
 
